@@ -90,7 +90,9 @@ func Gen(t *rapid.T) *Case {
 	}
 	if rapid.Bool().Draw(t, "mixed-sizes") {
 		for i := 0; i < np; i++ {
-			c.Dims = append(c.Dims, [2]int{rapid.OneOf(rapid.IntRange(1, 20), rapid.IntRange(33, 80)).Draw(t, "fw"), rapid.OneOf(rapid.IntRange(1, 20), rapid.IntRange(33, 80)).Draw(t, "fh")})
+			// (128..144: the smallest sizes with a full 64x64 code-block at the default five levels)
+			c.Dims = append(c.Dims, [2]int{rapid.OneOf(rapid.IntRange(1, 20), rapid.IntRange(33, 80), rapid.IntRange(128, 144)).Draw(t, "fw"),
+				rapid.OneOf(rapid.IntRange(1, 20), rapid.IntRange(33, 80), rapid.IntRange(128, 144)).Draw(t, "fh")})
 		}
 	}
 	maxJobs := 24
@@ -481,7 +483,11 @@ func TestReplay(t *testing.T) {
 
 // TestSharedParams: every codec, 8 concurrent Encode calls sharing one GetDefaultParameters() object (quota).
 func TestSharedParams(t *testing.T) {
-	for _, k := range codecKeys {
+	shard, shards := core.EnvInt("VERIF_SHARD", 0), max(1, core.EnvInt("VERIF_SHARDS", 1))
+	for ki, k := range codecKeys {
+		if ki%shards != shard {
+			continue
+		}
 		for _, procs := range []int{2, 16} {
 			c := &Case{Procs: procs, W: 12, H: 9, SPP: 1, Seeds: []uint64{1, 2, 3}}
 			for i := 0; i < 8; i++ {
@@ -491,6 +497,11 @@ func TestSharedParams(t *testing.T) {
 			// the same with a pool of frames of very different sizes
 			m := &Case{Procs: procs, W: 12, H: 9, SPP: 1, Seeds: []uint64{1, 2, 3}, Dims: [][2]int{{8, 8}, {64, 64}, {40, 3}}, Jobs: c.Jobs}
 			core.Eval(t, ID, "quota", m, Check)
+			// large enough for full-size code-blocks in every sub-band position
+			if k == "90" || k == "91" || k == "201" || k == "202" || k == "203" {
+				l := &Case{Procs: procs, W: 12, H: 9, SPP: 1, Seeds: []uint64{1, 2, 3}, Dims: [][2]int{{136, 130}, {128, 128}, {160, 129}}, Jobs: c.Jobs}
+				core.Eval(t, ID, "quota", l, Check)
+			}
 		}
 	}
 }
